@@ -40,7 +40,7 @@ echo "== lake build"
 (cd lean && lake build 2>&1 | grep -v '^trace\|^⚠\|^✔\|warning\|Hint\|apply\|Note\|^$\|^  ' | tail -15)
 (cd lean && lake build >/dev/null 2>&1) || fail "lake build failed"
 for id in $ids; do
-  for s in 0 1 2; do
+  for s in 0 1; do
     echo "== ./check $id quick seed $s"
     VERIF_SEED=$s timeout 900 ./check $id quick | cut -c1-220 | tail -4
     rc=${PIPESTATUS[0]}
